@@ -134,10 +134,10 @@ def check_counter(ctx, prog, R):
                     zero_edges.add(t_true)
         zero_edges = {z for z in zero_edges if len(nxt.preds()[z]) == 1}
         for sb in somes:
-            r = nxt.reachable(0, avoid={dec} | zero_edges)
+            r = nxt.reachable_ok(0, avoid={dec} | zero_edges)
             ctx.check(sb not in r or sb == dec, "size-hint-exact", "some-implies-decrement", "an item can be yielded without decrementing the size hint", where=where(nxt, sb))
         for nb in nones:
-            ctx.check(nb not in nxt.reachable(nxt.normal_succs(dec)) and nb != dec, "size-hint-exact", "none-implies-no-decrement",
+            ctx.check(nb not in nxt.reachable_ok(nxt.normal_succs(dec)) and nb != dec, "size-hint-exact", "none-implies-no-decrement",
                       "the size hint is decremented on a path that yields nothing", where=where(nxt, nb))
         # Some only under counter != 0
         g_ok = False
@@ -174,7 +174,7 @@ def check_counter(ctx, prog, R):
             if good:
                 some_e = sws[0]["targets"].get(1)
                 nones_ = [b for b, s_ in ret_agg_blocks(f, "core::option::Option", "None")]
-                good = some_e is not None and not any(nb in f.reachable(some_e) for nb in nones_) and steps[0][0] not in f.reachable(some_e)
+                good = some_e is not None and not any(nb in f.reachable_ok(some_e) for nb in nones_) and steps[0][0] not in f.reachable_ok(some_e)
             ctx.check(good, "item-at-scanned-offset", "some-step-yields", "after the step produced an offset, next() can return None or step again: a live entry is dropped and the size hint runs ahead", where=where(f))
         for role, nm in (("LOAD_KEY", "key"), ("LOAD_VALUE", "value")):
             sites = calls_to(prog, f, target_fn=R.need(role))
